@@ -24,10 +24,22 @@ let z_of_string (s : string) : z =
 let short s = if String.length s > 60 then String.sub s 0 60 ^ "..." else s
 
 (* the stored labelings in the order in which combine_labels meets them *)
-let family args (fam : n list list) =
+let family_in args (fam : n list list) (order : int list) =
   let costs = List.map z_of_string (split_on ',' (get args "costs")) in
-  let order = ints_of_string (get args "order") in
   List.map (fun j -> (List.nth costs j, List.nth fam j)) order
+let family args (fam : n list list) = family_in args fam (ints_of_string (get args "order"))
+
+(* The order in which labelings of EQUAL cost are combined is not fixed by anything (today it
+   is the order in which the directory lists them); it only affects the numbering of the
+   combined classes.  The model sorts stably, so feeding it the stored labelings in another
+   order explores the other tie orders: all orders for up to 5 labelings, four for more. *)
+let rec perms (l : int list) : int list list =
+  match l with
+  | [] -> [[]]
+  | _ -> List.concat_map (fun x -> List.map (fun r -> x :: r) (perms (List.filter (fun y -> y <> x) l))) l
+let alt_orders (order : int list) : int list list =
+  if List.length order <= 5 then perms order
+  else [order; List.rev order; List.sort compare order; List.rev (List.sort compare order)]
 
 let refine_limit = 200
 let mono_limit = 60
@@ -49,7 +61,12 @@ let run_comb (args : (string * string) list) : string =
      add "accepts" (if impl_ok then "ok" else "FAIL(" ^ short status ^ ")");
      if impl_ok then begin
        let out = nl (get args "out") in
-       add "combined" (if out = r then "ok" else "FAIL(model:" ^ short (str_nl r) ^ ")");
+       let order = ints_of_string (get args "order") in
+       let some_order = out = r || List.exists (fun o ->
+           match llp_combine_labels (family_in args fam o) with Some r' -> r' = out | None -> false)
+           (alt_orders order) in
+       add "combined" (if some_order then "ok" else "FAIL(model:" ^ short (str_nl r) ^ ")");
+       add "i_combined_dirorder" (if out = r then "same" else "other-tie-order");
        add "length" (ok (List.length out = n));
        add "dense" (ok (check_dense out));
        add "refine" (if n <= refine_limit then ok (check_refinement out fam) else "skip");
